@@ -16,6 +16,7 @@ fn main() {
         "chain-forged" => chain::cmd_forged(&args[2], &args[3]),
         "chain-record" => chainrec::cmd_record(args[2].parse().unwrap(), &args[3]),
         "chain-unique" => chain::cmd_unique(args[2].parse().unwrap(), &args[3]),
+        "auth-debug" => auth::cmd_debug(&args[2]),
         "auth-replay" => auth::cmd_replay(&args[2], &args[3]),
         "dlog-replay" => dlog::cmd_replay(&args[2], &args[3]),
         "chain-honest" => chain::cmd_honest(&args[2], &args[3]),
